@@ -63,4 +63,14 @@ CHECKS['C04'] = dict(
          '[before-assert] and [cleanup]; afterwards the sandbox root, stdout path, cwd and environ of the caller are compared with the '
          'documented lifecycle.',
     note='uid 0: permission cases run but cannot block removal; virtual children; sandbox root redirected via tempfile.tempdir.')
+CHECKS['C05'] = dict(
+    level='exploration',
+    technique='bounded-exhaustive enumeration: every text up to a length bound x every expression of the matcher/transformer families, evaluated by the real parsers+primitives and by a reference evaluator written from the manual; CLI slice binds it to contents/stdout/file',
+    text='All texts of length <=4 (thorough <=6) over {a,B,space,newline,.} plus boundary lengths (equals read-ahead 99..102, buffer 8191..8193, 65535/6) '
+         'x ~600 transformer and ~700 matcher expressions (replace with/without -preserve-new-lines/-at, strip variants, char-case, filter, grep, '
+         'identity, chains; is-empty, equals from 4 kinds of expected source, matches [-full][-ignore-case], num-lines, every/any line, '
+         '-transformed-by, !, &&, ||) on string-, file- and identity-wrapped models: 2e6 evaluations (quick) all compared with mc/ref/text.py. '
+         'A CLI slice runs every expression on 24 texts through contents / stdout / file -transformed-by in the polarity that must PASS.',
+    note='Reference evaluator uses Python re for REGEX (the manual defines REGEX by reference to Python); characters other than \\n that some '
+         'line splitters treat as line breaks are C14 territory.')
 NOT_APPLICABLE = {}
